@@ -202,7 +202,7 @@ theorem bindMultiAll_meets_spec (P : Params) (hP : FloatSane P) (cfg : Cfg) (fs 
         simp only [he', Bool.false_eq_true, if_false] at hr
         have := lemma_runAll P hP cfg fs hg (Spec.phasesOf fs srcs) (lemma_phases_srcOK fs srcs hs) ivs hw
         rw [hr] at this
-        obtain ⟨ph, hph, hpe⟩ := this e he
+        obtain ⟨ph, hph, hpe⟩ := this.2 e he
         right
         simp only [List.contains_iff_mem, Spec.multiCauses, List.mem_flatMap]
         exact ⟨ph, hph, lemma_phase_err P cfg fs hg ph (.struct ivs) e hpe⟩
@@ -438,5 +438,432 @@ theorem bindJ_meets_spec_no_shortcut (P : Params) (hP : FloatSane P) (cfg : Cfg)
     Spec.specOKJ P cfg tag fs (.struct ivs) src (toObs (bindJ P cfg tag (.struct fs) (.struct ivs) src)) = true := by
   rw [bindJ_eq_bind P cfg tag _ _ _ h, specOKJ_eq_specOK P cfg tag fs _ src _ h]
   exact bind_meets_spec P hP cfg tag fs ivs src hw hg hs
+
+end Rivaas.C04
+
+namespace Rivaas.C04
+open Rivaas Rivaas.Bind
+
+/-! ## `WithAllErrors` with a body source next to value sources: the reported errors -/
+
+/-- what the standard library decodes into the destination is a well-typed value of the destination type
+    (a property of the shipped parameter, checked by the driver on every case) -/
+def DocTyped (fs : List Fld) (d : DocInfo) : Prop :=
+  (∀ v, d.lax = .ok v → ∃ js, v = .struct js ∧ wts fs js = true) ∧
+  (∀ v, d.strict = .ok v → ∃ js, v = .struct js ∧ wts fs js = true)
+
+theorem mergeVals_wts : ∀ (fs : List Fld) (is js cs : List Val), wts fs js = true → wts fs cs = true →
+    wts fs (mergeVals is js cs) = true
+  | [], is, js, cs, hj, hc => by
+    cases cs with
+    | nil => cases is <;> cases js <;> simp [mergeVals, wts]
+    | cons _ _ => simp [wts] at hc
+  | (h, t) :: fs, is, js, cs, hj, hc => by
+    cases cs with
+    | nil => simp [wts] at hc
+    | cons c cs' =>
+      cases js with
+      | nil => simp [wts] at hj
+      | cons j js' =>
+        simp only [wts, Bool.and_eq_true] at hj hc
+        cases is with
+        | nil => simp [mergeVals, wts, hc.1, hc.2]
+        | cons i is' =>
+          simp only [mergeVals, wts, Bool.and_eq_true]
+          refine ⟨?_, mergeVals_wts fs is' js' cs' hj.2 hc.2⟩
+          split
+          · exact hc.1
+          · exact hj.1
+
+theorem decodeBody_typed (fs : List Fld) (r : BodyReq) (hd : DocTyped fs r.doc) (dv : Val) (h : decodeBody r = .ok dv) :
+    ∃ js, dv = .struct js ∧ wts fs js = true := by
+  unfold decodeBody at h
+  simp only at h
+  split at h
+  · cases h
+  · split at h
+    · cases hl : r.doc.lax <;> simp [hl, Dec.out] at h
+      exact hd.1 _ (by rw [hl, h])
+    · cases hl : r.doc.lax <;> simp [hl, Dec.out] at h
+      exact hd.1 _ (by rw [hl, h])
+    · split at h
+      · cases hl : r.doc.lax <;> simp [hl, Dec.out] at h
+        exact hd.1 _ (by rw [hl, h])
+      · cases h
+    · cases hl : r.doc.strict <;> simp [hl, Dec.out] at h
+      exact hd.2 _ (by rw [hl, h])
+
+theorem mem_okVals : ∀ (l : List (Except BErr Val)) (w : Val), Except.ok w ∈ l → w ∈ Spec.okVals l
+  | [], _, h => by cases h
+  | a :: rest, w, h => by
+    cases a with
+    | ok u =>
+      simp only [Spec.okVals, List.mem_cons] at h ⊢
+      rcases h with h | h
+      · left; cases h; rfl
+      · right; exact mem_okVals rest w h
+    | error e =>
+      simp only [List.mem_cons, reduceCtorEq, false_or] at h
+      simpa [Spec.okVals] using mem_okVals rest w h
+
+theorem decodeBody_admissible (r : BodyReq) :
+    (∀ e, decodeBody r = .error e → (Spec.admissible r).any (Spec.isErrWith e) = true) ∧
+    (∀ dv, decodeBody r = .ok dv → (Spec.okVals (Spec.admissible r)) ≠ []) := by
+  have h := body_meets_spec r
+  unfold bindBody at h
+  constructor
+  · intro e he
+    rw [he] at h
+    simpa [toBObs, Spec.specBody] using h
+  · intro dv hd
+    rw [hd] at h
+    simp only [toBObs, Spec.specBody, List.any_eq_true] at h
+    obtain ⟨x, hx, hxv⟩ := h
+    cases x with
+    | error e => simp [Spec.isOkWith] at hxv
+    | ok w =>
+      intro hnil
+      have := mem_okVals _ w hx
+      rw [hnil] at this
+      cases this
+
+theorem dec_out_not_bind (d : Dec) (e' : Err) : d.out ≠ .error (.bind e') := by
+  cases d <;> simp [Dec.out]
+
+theorem decodeBody_not_bind (r : BodyReq) (e' : Err) : decodeBody r ≠ .error (.bind e') := by
+  unfold decodeBody
+  simp only
+  split
+  · simp
+  · split
+    · exact dec_out_not_bind _ _
+    · exact dec_out_not_bind _ _
+    · split
+      · exact dec_out_not_bind _ _
+      · simp
+    · exact dec_out_not_bind _ _
+
+/-- the errors a collecting run over value and body sources reports, step by step -/
+theorem lemma_runStepsAll (P : Params) (hP : FloatSane P) (cfg : Cfg) (fs fs' : List Fld) (hg' : Spec.inGrammarFs fs' = true)
+    (hwfs : ∀ vs, wts fs' vs = wts fs vs) (mk : Src → Spec.Phase) (hk : ∀ s, (mk s).src = s) (hfs : ∀ s, phaseFs fs (mk s) = fs')
+    (ivs0 : List Val) (hw0 : wts fs ivs0 = true) :
+    ∀ (steps : List Step), (∀ s ∈ Spec.srcsOf steps, Spec.srcOK s = true) → (∀ r ∈ Spec.bodiesOf steps, DocTyped fs r.doc) →
+    ∀ cvs : List Val, wts fs cvs = true →
+    match runStepsAll P cfg fs (.struct fs') (.struct ivs0) steps (.struct cvs) with
+    | .done _ es =>
+      (∀ e ∈ es, match e with
+        | .bind e' => ∃ s ∈ Spec.srcsOf steps, Spec.mentionsFs s.kind fs = true ∧ PhaseErr P cfg fs (mk s) e'
+        | e => ∃ r ∈ Spec.bodiesOf steps, decodeBody r = .error e) ∧
+      (∀ r ∈ Spec.bodiesOf steps, (∃ dv, decodeBody r = .ok dv) ∨ ∃ e ∈ es, decodeBody r = .error e)
+    | .panic => False
+  | [], _, _, cvs, _ => by simp [runStepsAll, Spec.bodiesOf]
+  | .src s :: rest, hs, hd, cvs, hw => by
+    have ih := lemma_runStepsAll P hP cfg fs fs' hg' hwfs mk hk hfs ivs0 hw0 rest
+      (fun x hx => hs x (by simp [Spec.srcsOf, hx])) (fun r hr => hd r (by simpa [Spec.bodiesOf] using hr))
+    simp only [runStepsAll, lemma_hasTag_fs]
+    by_cases ht : Spec.mentionsFs s.kind fs = true
+    · simp only [ht, if_true]
+      have hb := lemma_bindAll_errs P hP cfg s.kind fs' cvs s (by rw [hwfs]; exact hw) hg' (hs s (by simp [Spec.srcsOf]))
+      cases hr : bindAll P cfg s.kind (.struct fs') (.struct cvs) s with
+      | panic => rw [hr] at hb; exact hb
+      | done v es =>
+        rw [hr] at hb
+        obtain ⟨rvs, hv, hwr⟩ := lemma_bindAll_typed P cfg s.kind fs' cvs s v es (by rw [hwfs]; exact hw) hg' hr
+        subst hv
+        have ih' := ih rvs (by rw [← hwfs]; exact hwr)
+        simp only
+        cases hrr : runStepsAll P cfg fs (.struct fs') (.struct ivs0) rest (.struct rvs) with
+        | panic => rw [hrr] at ih'; exact ih'
+        | done v2 es2 =>
+          rw [hrr] at ih'
+          simp only [OutAllB.prepend]
+          obtain ⟨i1, i2⟩ := ih'
+          refine ⟨?_, ?_⟩
+          · intro e he
+            rcases List.mem_append.1 he with he | he
+            · simp only [List.mem_map] at he
+              obtain ⟨e', he', rfl⟩ := he
+              refine ⟨s, by simp [Spec.srcsOf], ht, ?_⟩
+              exact ⟨cvs, by rw [hk, hfs]; exact hb e' he'⟩
+            · have := i1 e he
+              cases e with
+              | bind e' =>
+                obtain ⟨s', hs', hm, hp⟩ := this
+                exact ⟨s', by simp [Spec.srcsOf, hs'], hm, hp⟩
+              | decode => obtain ⟨r, hr', hx⟩ := this; exact ⟨r, by simpa [Spec.bodiesOf] using hr', hx⟩
+              | unknown n => obtain ⟨r, hr', hx⟩ := this; exact ⟨r, by simpa [Spec.bodiesOf] using hr', hx⟩
+              | read => obtain ⟨r, hr', hx⟩ := this; exact ⟨r, by simpa [Spec.bodiesOf] using hr', hx⟩
+              | ctype => obtain ⟨r, hr', hx⟩ := this; exact ⟨r, by simpa [Spec.bodiesOf] using hr', hx⟩
+              | nobody => obtain ⟨r, hr', hx⟩ := this; exact ⟨r, by simpa [Spec.bodiesOf] using hr', hx⟩
+          · intro r hr'
+            rcases i2 r (by simpa [Spec.bodiesOf] using hr') with h | ⟨e, he, hx⟩
+            · exact Or.inl h
+            · exact Or.inr ⟨e, List.mem_append.2 (Or.inr he), hx⟩
+    · have ht' : Spec.mentionsFs s.kind fs = false := by simpa using ht
+      simp only [ht', Bool.false_eq_true, if_false]
+      have ih' := ih cvs hw
+      cases hrr : runStepsAll P cfg fs (.struct fs') (.struct ivs0) rest (.struct cvs) with
+      | panic => rw [hrr] at ih'; exact ih'
+      | done v2 es2 =>
+        rw [hrr] at ih'
+        obtain ⟨i1, i2⟩ := ih'
+        refine ⟨?_, fun r hr' => i2 r (by simpa [Spec.bodiesOf] using hr')⟩
+        intro e he
+        have := i1 e he
+        cases e with
+        | bind e' =>
+          obtain ⟨s', hs', hm, hp⟩ := this
+          exact ⟨s', by simp [Spec.srcsOf, hs'], hm, hp⟩
+        | decode => obtain ⟨r, hr', hx⟩ := this; exact ⟨r, by simpa [Spec.bodiesOf] using hr', hx⟩
+        | unknown n => obtain ⟨r, hr', hx⟩ := this; exact ⟨r, by simpa [Spec.bodiesOf] using hr', hx⟩
+        | read => obtain ⟨r, hr', hx⟩ := this; exact ⟨r, by simpa [Spec.bodiesOf] using hr', hx⟩
+        | ctype => obtain ⟨r, hr', hx⟩ := this; exact ⟨r, by simpa [Spec.bodiesOf] using hr', hx⟩
+        | nobody => obtain ⟨r, hr', hx⟩ := this; exact ⟨r, by simpa [Spec.bodiesOf] using hr', hx⟩
+  | .body r :: rest, hs, hd, cvs, hw => by
+    have ih := lemma_runStepsAll P hP cfg fs fs' hg' hwfs mk hk hfs ivs0 hw0 rest
+      (fun x hx => hs x (by simpa [Spec.srcsOf] using hx)) (fun r' hr => hd r' (by simp [Spec.bodiesOf, hr]))
+    simp only [runStepsAll]
+    cases hdec : decodeBody r with
+    | ok dv =>
+      obtain ⟨js, hjs, hwj⟩ := decodeBody_typed fs r (hd r (by simp [Spec.bodiesOf])) dv hdec
+      subst hjs
+      have hm : wts fs (mergeVals ivs0 js cvs) = true := mergeVals_wts fs ivs0 js cvs hwj hw
+      have ih' := ih (mergeVals ivs0 js cvs) hm
+      simp only [mergeDec]
+      cases hrr : runStepsAll P cfg fs (.struct fs') (.struct ivs0) rest (.struct (mergeVals ivs0 js cvs)) with
+      | panic => rw [hrr] at ih'; exact ih'
+      | done v2 es2 =>
+        rw [hrr] at ih'
+        obtain ⟨i1, i2⟩ := ih'
+        refine ⟨?_, ?_⟩
+        · intro e he
+          have := i1 e he
+          cases e with
+          | bind e' =>
+            obtain ⟨s', hs', hm', hp⟩ := this
+            exact ⟨s', by simpa [Spec.srcsOf] using hs', hm', hp⟩
+          | decode => obtain ⟨r', hr', hx⟩ := this; exact ⟨r', by simp [Spec.bodiesOf, hr'], hx⟩
+          | unknown n => obtain ⟨r', hr', hx⟩ := this; exact ⟨r', by simp [Spec.bodiesOf, hr'], hx⟩
+          | read => obtain ⟨r', hr', hx⟩ := this; exact ⟨r', by simp [Spec.bodiesOf, hr'], hx⟩
+          | ctype => obtain ⟨r', hr', hx⟩ := this; exact ⟨r', by simp [Spec.bodiesOf, hr'], hx⟩
+          | nobody => obtain ⟨r', hr', hx⟩ := this; exact ⟨r', by simp [Spec.bodiesOf, hr'], hx⟩
+        · intro r' hr'
+          simp only [Spec.bodiesOf, List.mem_cons] at hr'
+          rcases hr' with rfl | hr'
+          · exact Or.inl ⟨_, hdec⟩
+          · exact i2 r' hr'
+    | error e0 =>
+      have ih' := ih cvs hw
+      simp only
+      cases hrr : runStepsAll P cfg fs (.struct fs') (.struct ivs0) rest (.struct cvs) with
+      | panic => rw [hrr] at ih'; exact ih'
+      | done v2 es2 =>
+        rw [hrr] at ih'
+        obtain ⟨i1, i2⟩ := ih'
+        simp only [OutAllB.prepend, List.singleton_append]
+        refine ⟨?_, ?_⟩
+        · intro e he
+          simp only [List.mem_cons] at he
+          rcases he with rfl | he
+          · have hne : ∀ e', e ≠ BErr.bind e' := by
+              intro e' heq
+              subst heq
+              exact decodeBody_not_bind r e' hdec
+            cases e with
+            | bind e' => exact absurd rfl (hne e')
+            | decode => exact ⟨r, by simp [Spec.bodiesOf], hdec⟩
+            | unknown n => exact ⟨r, by simp [Spec.bodiesOf], hdec⟩
+            | read => exact ⟨r, by simp [Spec.bodiesOf], hdec⟩
+            | ctype => exact ⟨r, by simp [Spec.bodiesOf], hdec⟩
+            | nobody => exact ⟨r, by simp [Spec.bodiesOf], hdec⟩
+          · have := i1 e he
+            cases e with
+            | bind e' =>
+              obtain ⟨s', hs', hm', hp⟩ := this
+              exact ⟨s', by simpa [Spec.srcsOf] using hs', hm', hp⟩
+            | decode => obtain ⟨r', hr', hx⟩ := this; exact ⟨r', by simp [Spec.bodiesOf, hr'], hx⟩
+            | unknown n => obtain ⟨r', hr', hx⟩ := this; exact ⟨r', by simp [Spec.bodiesOf, hr'], hx⟩
+            | read => obtain ⟨r', hr', hx⟩ := this; exact ⟨r', by simp [Spec.bodiesOf, hr'], hx⟩
+            | ctype => obtain ⟨r', hr', hx⟩ := this; exact ⟨r', by simp [Spec.bodiesOf, hr'], hx⟩
+            | nobody => obtain ⟨r', hr', hx⟩ := this; exact ⟨r', by simp [Spec.bodiesOf, hr'], hx⟩
+        · intro r' hr'
+          simp only [Spec.bodiesOf, List.mem_cons] at hr'
+          rcases hr' with rfl | hr'
+          · exact Or.inr ⟨e0, by simp, hdec⟩
+          · rcases i2 r' hr' with h | ⟨e, he, hx⟩
+            · exact Or.inl h
+            · exact Or.inr ⟨e, by simp [he], hx⟩
+
+theorem filterMap_src_eq_srcsOf : ∀ steps : List Step, steps.filterMap Step.src? = Spec.srcsOf steps
+  | [] => rfl
+  | .src s :: rest => by simp [Step.src?, Spec.srcsOf, filterMap_src_eq_srcsOf rest]
+  | .body r :: rest => by
+    have := filterMap_src_eq_srcsOf rest
+    simp only [List.filterMap_cons, Step.src?, Spec.srcsOf]
+    exact this
+
+/-- what `lemma_runStepsAll` says about a list of errors, as the Booleans of `Spec.specStepsAll` -/
+theorem stepsAll_bool (P : Params) (cfg : Cfg) (fs : List Fld) (hg : Spec.inGrammarFs fs = true) (init : Val) (steps : List Step)
+    (errs : List BErr)
+    (h1 : ∀ e ∈ errs, match e with
+      | .bind e' => ∃ ph ∈ Spec.phasesOf fs (Spec.srcsOf steps), PhaseErr P cfg fs ph e'
+      | e => ∃ r ∈ Spec.bodiesOf steps, decodeBody r = .error e)
+    (h2 : ∀ r ∈ Spec.bodiesOf steps, (∃ dv, decodeBody r = .ok dv) ∨ ∃ e ∈ errs, decodeBody r = .error e) :
+    ((errs.all fun e => match e with
+      | .bind e' => (steps.isEmpty && e' == Err.conv) || (Spec.multiCauses P cfg fs init (Spec.srcsOf steps)).contains e'
+      | e => (Spec.bodiesOf steps).any fun r => (Spec.admissible r).any (Spec.isErrWith e)) &&
+    ((Spec.bodiesOf steps).all fun r =>
+      !(Spec.okVals (Spec.admissible r)).isEmpty || errs.any (fun e => (Spec.admissible r).any (Spec.isErrWith e)))) = true := by
+  simp only [Bool.and_eq_true, List.all_eq_true]
+  refine ⟨?_, ?_⟩
+  · intro e he
+    have := h1 e he
+    cases e with
+    | bind e' =>
+      obtain ⟨ph, hph, hpe⟩ := this
+      simp only [Bool.or_eq_true]
+      right
+      simp only [List.contains_iff_mem, Spec.multiCauses, List.mem_flatMap]
+      exact ⟨ph, hph, lemma_phase_err P cfg fs hg ph init e' hpe⟩
+    | decode => obtain ⟨r, hr, hx⟩ := this; exact List.any_eq_true.2 ⟨r, hr, (decodeBody_admissible r).1 _ hx⟩
+    | unknown n => obtain ⟨r, hr, hx⟩ := this; exact List.any_eq_true.2 ⟨r, hr, (decodeBody_admissible r).1 _ hx⟩
+    | read => obtain ⟨r, hr, hx⟩ := this; exact List.any_eq_true.2 ⟨r, hr, (decodeBody_admissible r).1 _ hx⟩
+    | ctype => obtain ⟨r, hr, hx⟩ := this; exact List.any_eq_true.2 ⟨r, hr, (decodeBody_admissible r).1 _ hx⟩
+    | nobody => obtain ⟨r, hr, hx⟩ := this; exact List.any_eq_true.2 ⟨r, hr, (decodeBody_admissible r).1 _ hx⟩
+  · intro r hr
+    simp only [Bool.or_eq_true, Bool.not_eq_true', List.any_eq_true]
+    rcases h2 r hr with ⟨dv, hdv⟩ | ⟨e, he, hx⟩
+    · left
+      cases hok : Spec.okVals (Spec.admissible r) with
+      | nil => exact absurd hok ((decodeBody_admissible r).2 dv hdv)
+      | cons _ _ => rfl
+    · exact Or.inr ⟨e, he, List.any_eq_true.1 ((decodeBody_admissible r).1 _ hx)⟩
+
+/-- **`WithAllErrors` with body sources next to value sources: the reported errors meet the collecting oracle** - every
+    error of a value source has a cause in its own pass, every body error is one the oracle admits for that body
+    source, and a body source that can only fail is reported; never a panic. (The *value* of a mixed bind - with or
+    without errors - rests on the disjointness of body and value fields, which the driver checks per case.)
+    Hypothesis on the shipped parameter: what encoding/json / encoding/xml decode is a well-typed value of the
+    destination type (`DocTyped`). -/
+theorem bindStepsAll_errors_meet_spec (P : Params) (hP : FloatSane P) (cfg : Cfg) (fs : List Fld) (ivs : List Val)
+    (steps : List Step) (hw : wts fs ivs = true) (hg : Spec.inGrammarFs fs = true)
+    (hs : ∀ s ∈ Spec.srcsOf steps, Spec.srcOK s = true) (hd : ∀ r ∈ Spec.bodiesOf steps, DocTyped fs r.doc) :
+    match bindStepsAll P cfg fs (.struct ivs) steps with
+    | .done v (e0 :: es) => Spec.specStepsAll P cfg fs (.struct ivs) steps (.done v (e0 :: es)) = true
+    | .done _ [] => True
+    | .panic => False := by
+  unfold bindStepsAll
+  simp only [filterMap_src_eq_srcsOf]
+  by_cases hemp : steps.isEmpty = true
+  · simp only [hemp, if_true]
+    have : steps = [] := by simpa using hemp
+    subst this
+    simp [Spec.specStepsAll, Spec.bodiesOf]
+  · have hemp' : steps.isEmpty = false := by simpa using hemp
+    simp only [hemp', Bool.false_eq_true, if_false]
+    by_cases h1 : (Spec.srcsOf steps).length ≤ 1
+    · simp only [h1, if_true]
+      have hrun := lemma_runStepsAll P hP cfg fs fs hg (fun _ => rfl)
+        (fun s => { src := s, defaultsOnly := false, noDefaults := false }) (fun _ => rfl) (fun _ => by simp [phaseFs])
+        ivs hw steps hs hd ivs hw
+      cases hr : runStepsAll P cfg fs (.struct fs) (.struct ivs) steps (.struct ivs) with
+      | panic => rw [hr] at hrun; exact hrun
+      | done v errs =>
+        rw [hr] at hrun
+        cases errs with
+        | nil => trivial
+        | cons e0 es =>
+          simp only [Spec.specStepsAll]
+          apply stepsAll_bool P cfg fs hg (.struct ivs) steps (e0 :: es) ?_ hrun.2
+          intro e he
+          have := hrun.1 e he
+          cases e with
+          | bind e' =>
+            obtain ⟨s, hsm, hm, hp⟩ := this
+            refine ⟨_, ?_, hp⟩
+            have hlen : (Spec.srcsOf steps).length = 1 := by
+              cases hl : Spec.srcsOf steps with
+              | nil => rw [hl] at hsm; cases hsm
+              | cons a r =>
+                rw [hl] at h1
+                cases r with
+                | nil => rfl
+                | cons _ _ => simp at h1
+            simp only [Spec.phasesOf, hlen, beq_self_eq_true, if_true, List.mem_map, List.mem_filter]
+            exact ⟨s, ⟨hsm, hm⟩, rfl⟩
+          | decode => exact this
+          | unknown n => exact this
+          | read => exact this
+          | ctype => exact this
+          | nobody => exact this
+    · simp only [h1, if_false]
+      have hne : ((Spec.srcsOf steps).length == 1) = false := by
+        cases hl : (Spec.srcsOf steps).length with
+        | zero => simp [hl] at h1
+        | succ n => cases n with
+          | zero => simp [hl] at h1
+          | succ m => simp
+      -- the defaults pass over the emptied value sources
+      have hA := lemma_bindPassAll_phases P cfg fs fs
+        (fun s => { src := { s with kvs := [] }, defaultsOnly := true, noDefaults := false })
+        (fun _ => rfl) (fun _ => by simp [phaseFs]) (Spec.srcsOf steps) (.struct ivs) (fun s => { s with kvs := [] })
+        (fun _ => rfl) (fun _ => rfl)
+      rw [hA]
+      have hsrcA : ∀ ph ∈ ((Spec.srcsOf steps).filter (fun s => Spec.mentionsFs s.kind fs)).map
+          (fun s => ({ src := { s with kvs := [] }, defaultsOnly := true, noDefaults := false } : Spec.Phase)),
+          Spec.srcOK ph.src = true := by
+        intro ph hph
+        simp only [List.mem_map] at hph
+        obtain ⟨s, _, rfl⟩ := hph
+        simp only [Spec.srcOK, List.all_nil, Bool.true_and]
+        cases s.kind <;> rfl
+      have hrunA := lemma_runAll P hP cfg fs hg _ hsrcA ivs hw
+      cases hrA : runPhasesAll P cfg fs (((Spec.srcsOf steps).filter (fun s => Spec.mentionsFs s.kind fs)).map
+          (fun s => ({ src := { s with kvs := [] }, defaultsOnly := true, noDefaults := false } : Spec.Phase))) (.struct ivs) with
+      | panic => rw [hrA] at hrunA; exact hrunA
+      | done v1 es1 =>
+        rw [hrA] at hrunA
+        obtain ⟨⟨rvs, hv1, hwr⟩, hA1⟩ := hrunA
+        subst hv1
+        simp only
+        have hrun := lemma_runStepsAll P hP cfg fs (stripFs fs) (by rw [lemma_strip_grammarFs']; exact hg)
+          (fun vs => lemma_strip_wts' fs vs)
+          (fun s => { src := s, defaultsOnly := false, noDefaults := true }) (fun _ => rfl) (fun _ => by simp [phaseFs])
+          ivs hw steps hs hd rvs hwr
+        cases hr : runStepsAll P cfg fs (.struct (stripFs fs)) (.struct ivs) steps (.struct rvs) with
+        | panic => rw [hr] at hrun; exact hrun
+        | done v errs =>
+          rw [hr] at hrun
+          simp only [OutAllB.prepend]
+          cases hall : es1.map BErr.bind ++ errs with
+          | nil => trivial
+          | cons e0 es =>
+            simp only [Spec.specStepsAll]
+            rw [← hall]
+            apply stepsAll_bool P cfg fs hg (.struct ivs) steps _ ?_ ?_
+            · intro e he
+              rcases List.mem_append.1 he with he | he
+              · simp only [List.mem_map] at he
+                obtain ⟨e', he', rfl⟩ := he
+                obtain ⟨ph, hph, hpe⟩ := hA1 e' he'
+                refine ⟨ph, ?_, hpe⟩
+                simp only [Spec.phasesOf, hne, Bool.false_eq_true, if_false, List.mem_append]
+                exact Or.inl hph
+              · have := hrun.1 e he
+                cases e with
+                | bind e' =>
+                  obtain ⟨s, hsm, hm, hp⟩ := this
+                  refine ⟨_, ?_, hp⟩
+                  simp only [Spec.phasesOf, hne, Bool.false_eq_true, if_false, List.mem_append, List.mem_map, List.mem_filter]
+                  exact Or.inr ⟨s, ⟨hsm, hm⟩, rfl⟩
+                | decode => exact this
+                | unknown n => exact this
+                | read => exact this
+                | ctype => exact this
+                | nobody => exact this
+            · intro r hr'
+              rcases hrun.2 r hr' with h | ⟨e, he, hx⟩
+              · exact Or.inl h
+              · exact Or.inr ⟨e, List.mem_append.2 (Or.inr he), hx⟩
 
 end Rivaas.C04
